@@ -815,14 +815,14 @@ def _defect_area(case):
 
 
 def finding_class(case, out):
-    """which recorded defect an observed violation belongs to (None = a new one)"""
+    """which repaired defect's symptom an observed violation shows (None = something else)"""
     r = _defect_area(case)
     err = out.get("err")
     if err == "IndexError" and "F8-empty" in r:
         return "F8-empty"
     if err == "ZeroDivisionError" and "F8-zero" in r:
         return "F8-zero"
-    if "F11-lang-suppress" in r and err in (None, "IndexError") and "F8-empty" not in r:
+    if err == "IndexError" and "F11-lang-suppress" in r and "Dimension specified" in out.get("msg", ""):
         return "F11-lang-suppress"
     return None
 
